@@ -23,7 +23,7 @@ func init() {
 	core.Register(&core.Check{
 		ID:    "C05",
 		Level: "exploration",
-		Rule: "(1) sanitize.Path / PathOr on every string of <=4 (thorough 5) symbols over a 23-symbol alphabet with one representative per class the sanitizer branches on (/ \\ . space tab : NUL 0x01 0x7F U+0085 U+00A0 U+2028 < * _ a, an invalid UTF-8 byte, and the tokens '..', 'C:', 'CON', 'nul', 'COM1', 'LPT9.txt'); (2) call sites under a filesystem monitor (every path handed to a creating os call must have the output directory as parent): ExtractAttachmentsFile on documents carrying every (name tree key, /F = /UF) pair of a 9 x 44 hostile name product and (/F, /UF) pairs of a 12-name subset; (3) every ordered pair of attachment names from a 26-string set with sanitizer- and case-equivalent members: both files exist with their own bytes, or the collision error is returned and the directory is unchanged; " +
+		Rule: "(1) sanitize.Path / PathOr on every string of <=4 (thorough 5) symbols over a 23-symbol alphabet with one representative per class the sanitizer branches on (/ \\ . space tab : NUL 0x01 0x7F U+0085 U+00A0 U+2028 < * _ a, an invalid UTF-8 byte, and the tokens '..', 'C:', 'CON', 'nul', 'COM1', 'LPT9.txt'), plus long names: every prefix of <=2 symbols before/after a filler of 60..4096 bytes x 6 suffixes; (2) call sites under a filesystem monitor (every path handed to a creating os call must have the output directory as parent): ExtractAttachmentsFile on documents carrying every (name tree key, /F = /UF) pair of a 9 x 44 hostile name product and (/F, /UF) pairs of a 12-name subset; (3) every ordered pair of attachment names from a 26-string set with sanitizer- and case-equivalent members: both files exist with their own bytes, or the collision error is returned and the directory is unchanged; " +
 			"non-trivial = an input containing a separator, dot-dot, drive, control or reserved token",
 		Assume: []string{"call sites covered so far: attachment extraction (file and name tree key paths); split-by-bookmark, image/font/content/page extraction and multi-fill names are driven through the same sanitizer (part 1) but not yet through their own call sites"},
 		Run:      func(r *core.R) { core.Sharded(r, core.Workers()) },
@@ -119,6 +119,45 @@ func c05shard(r *core.R, shard, n int) {
 			}
 		}
 		rec(first, 1)
+	}
+	// ---- (1b) long names: the same oracle on (prefix of <=2 symbols) + filler of a length around every plausible
+	// internal limit + suffix: a sanitizer that shortens, hashes or windows long names must stay safe
+	if true {
+		fillers := []int{60, 120, 199, 200, 201, 254, 255, 256, 300, 1024, 4096}
+		suffixes := []string{"", ".txt", "/..", "/x", "\\..\\x", " "}
+		var prefixes []string
+		prefixes = append(prefixes, "")
+		for _, a := range c05alpha {
+			prefixes = append(prefixes, a)
+			for _, b := range c05alpha {
+				prefixes = append(prefixes, a+b)
+			}
+		}
+		k := 0
+		for _, pre := range prefixes {
+			for _, fl := range fillers {
+				for _, suf := range suffixes {
+					k++
+					if k%n != shard {
+						continue
+					}
+					for _, cur := range []string{pre + strings.Repeat("A", fl) + suf, strings.Repeat("A", fl) + pre + suf} {
+						r.Eval(1)
+						r.Nontrivial(1)
+						res, err := sanitize.Path(cur)
+						if err != nil {
+							continue
+						}
+						if bad := c05nameOK(res); bad != "" {
+							key := "sanitize.Path:long-name:" + bad
+							if r.Want(key) {
+								r.Violation(key, fmt.Sprintf("sanitize.Path(%q + %d x A + %q) = %q: %s", pre, fl, suf, trimTo(res, 80), bad), map[string]any{"prefix": pre, "filler": fl, "suffix": suf})
+							}
+						}
+					}
+				}
+			}
+		}
 	}
 	if shard == 0 {
 		sanitize.Path("")
